@@ -197,15 +197,32 @@ func init() {
 		case strings.Contains(name, ").Unmarshal") && strings.Contains(name, "nistCurve["):
 			return func(fr *frame, args []value) value {
 				i := fr.i
-				bs, ok := valuesToBytes(args[1].([]value))
-				if !ok {
-					panic(unsupported("curve.Unmarshal on symbolic bytes"))
-				}
 				// byte length from the curve's parameters (receiver field `params`)
 				recv := (*args[0].(*value)).(structure)
 				params := (*recv[1].(*value)).(structure) // nistCurve{newPoint, params}
 				bits := int(i.concreteInt(params[5]))     // CurveParams{P,N,B,Gx,Gy,BitSize,Name}
 				bl := (bits + 7) / 8
+				bs, ok := valuesToBytes(args[1].([]value))
+				if !ok {
+					// symbolic bytes: only the uncompressed form is understood (as in
+					// crypto/elliptic); the form octet is decided (forks when symbolic),
+					// the coordinates stay symbolic
+					raw := args[1].([]value)
+					if len(raw) != 1+2*bl {
+						return tuple{(*value)(nil), (*value)(nil)}
+					}
+					if !i.decide(i.cx.Eq(i.term(raw[0]), i.cx.BV(4, 8))) {
+						return tuple{(*value)(nil), (*value)(nil)}
+					}
+					bt := i.bigIntType()
+					mk := func(part []value) *value {
+						v := zero(bt)
+						cell := &v
+						call(i, fr, 0, i.sh.Pkgs["math/big"].Prog.LookupMethod(types.NewPointer(bt), i.sh.Pkgs["math/big"].Pkg, "SetBytes"), []value{cell, part})
+						return cell
+					}
+					return tuple{mk(raw[1 : 1+bl]), mk(raw[1+bl:])}
+				}
 				if len(bs) != 1+2*bl || bs[0] != 4 {
 					return tuple{(*value)(nil), (*value)(nil)}
 				}
